@@ -13,6 +13,7 @@ TABLE_DEPS = ["coll_vector_shape", "coll_nth_shape", "coll_with_meta_shape", "co
 TAGGED = True
 SHARD = 300
 HARD_TIMEOUT = 60
+NWORKERS = 2          # a case costs ~0.15 ms of work; bootstraps (12 s each) do not parallelise well
 EXHAUSTIVE = {"quick": False, "thorough": False}
 RULE = ("a case is one branching history over vectors, lists, queues, maps, sets, nil and their "
         "transients; every operation names the earlier results it uses by position. Quick: all "
